@@ -63,9 +63,14 @@ def wordlist_clause(chk):
     fails = []
     ident = {'dict': set(), 'wordlist': set()}
     model_bad = []
-    n = chk.n(1000, 5000)
+    n = chk.n(1000, 20000)
     for it in range(n):
         d = wlgen.gen_wordlist(rng, with_tokens=False)
+        if rng.random() < 0.4:
+            # the header as callers write it: upper case, aliases of the namespace - it belongs to the caller just like the rows
+            spell = {'doculect': ['DOCULECT', 'language', 'taxa', 'Taxon'], 'concept': ['CONCEPT', 'gloss', 'Concept'], 'ipa': ['IPA', 'Ipa'],
+                     'cogid': ['COGID', 'CogID']}
+            d[0] = [rng.choice(spell[h] + [h]) if h in spell else h for h in d[0]]
         klass = rng.choice([Wordlist, Wordlist, LexStat, Alignments])
         kind = rng.choice(['dict', 'wordlist'])
         log = []
@@ -147,7 +152,7 @@ def wordlist_clause(chk):
 def matrix_clause(chk):
     rng = chk.rng
     fails = []
-    n = chk.n(1800, 8000)
+    n = chk.n(1800, 32000)
     taxa_all = ['T%d' % i for i in range(20)]
     for it in range(n):
         m, t = cl.gen_matrix(rng, maxn=7, exact=False)
